@@ -167,6 +167,16 @@ pub fn canvas(fam: &str, seed: u64, n: usize) -> Vec<Value> {
                     stk.push("l");
                 }
                 5 => {
+                    // one pop in four crosses: it pops the most recent entry of the other stack (a clip pushed before
+                    // the open layer, or a layer under clips pushed inside it)
+                    if r.chance(1, 4) && stk.len() >= 2 {
+                        let top = *stk.last().unwrap();
+                        if let Some(k) = stk.iter().rposition(|t| *t != top) {
+                            let t = stk.remove(k);
+                            calls.push(json!({"op": if t == "c" { "pop_clip" } else { "pop_layer" }}));
+                            continue;
+                        }
+                    }
                     if let Some(t) = stk.pop() {
                         calls.push(json!({"op": if t == "c" { "pop_clip" } else { "pop_layer" }}));
                     }
